@@ -2,7 +2,8 @@
 import re, random
 import gen, sem, t2t
 
-WORD = re.compile(r'Q[a-z]+')
+# a letter followed by a combining mark is the result of an accent macro glued to the word (\~{l} -> l + U+0303), not part of it
+WORD = re.compile(r'Q(?:[a-z](?![\u0300-\u036f]))+')
 
 def make_case(rng, profile=None, n=None, opts=None):
     ast, r = gen.make_doc(rng, profile, n)
